@@ -7,7 +7,7 @@ from .. import apilevel as A, docx_builder as B, gen_xml, gen_styles as GS, orac
 from ..gen_xml import xml_json
 
 STYLES = [("Heading1", "Heading 1"), ("Quote", "Intense Quote"), ("ListParagraph", "List Paragraph"), ("Odd", "straße Ünï"),
-          ("NoName", None)]
+          ("NoName", None), ("Meta", "C++ (listing) [1].*")]     # (a name full of characters that mean something in patterns: it is a string)
 RSTYLES = [("Strong", "Strong"), ("Emph", "Emphasis")]
 TSTYLES = [("TableGrid", "Table Grid")]
 
